@@ -5,7 +5,7 @@ from props import util
 
 THEOREMS = ['C07_assembled_wf', 'C07_vectors_are_the_assets', 'C07_row_points_to_own_variable', 'C07_row_points_shifted',
             'C07_assembled_mapping_wf', 'C07_nodal_rows_exact', 'C07_nodal_rows_unique',
-            'C07_transport_builder_wf', 'C07_storage_builder_wf', 'C07_contract_builder_wf']
+            'C07_transport_builder_wf', 'C07_storage_builder_wf', 'C07_contract_builder_wf', 'C07_split_rows_point_into_their_interval']
 CFG = {'p_gap': 0.2, 'p_cap_dict': 0.35, 'p_coarse': 0.2, 'p_periodic': 0.2, 'T': (3, 8), 'n_assets': (1, 5), 'nodes': (1, 3), 'p_window': 0.5,
        'p_no_simult': 0.2, 'p_max_store': 0.15, 'p_full_exec': 0.2,
        'window_kinds': ['inside', 'left', 'right', 'straddle_l', 'straddle_r', 'before', 'after', 'offgrid'],
@@ -76,7 +76,7 @@ def coarse_steps_oracle(sp, a, prob):
 
 
 def run(ctx):
-    if not ctx.proof_gate(THEOREMS):
+    if not ctx.proof_gate(THEOREMS, ['Build.vo', 'Split.vo']):
         return
     n = 60 if ctx.tier == 'quick' else 400
     specs = util.corpus(ctx.prop) + gen.gen_many(ctx.seed, n, CFG, 'c07_')
@@ -115,6 +115,7 @@ def run(ctx):
         sp['opts']['no_solve'] = True
     spl = [sp for sp in ctx.specs(spl) if sp.get('opts', {}).get('split')]
     from props.C14 import interval_ranges
+    sm_exprs, sm_owners = [], []
     for sp, o in zip(spl, C.run_impl('portfolio', spl) if spl else []):
         s_ = o.get('split') if o.get('status') == 'ok' else None
         if not isinstance(s_, dict) or 'setup_error' in s_:
@@ -144,6 +145,10 @@ def run(ctx):
         if bad:
             ctx.violation('impl-violation', {'spec': sp, 'mode': 'split', 'observed': bad, 'expected': 'well-formed interval problems; joint mapping names the variables of the concatenated problem'},
                           trigger={'what': 'split: ' + sorted(bad)[0][:40]})
+        e_ = util.split_map_expr(sp, s_)
+        if e_:
+            sm_exprs.append(e_)
+            sm_owners.append(sp)
     specs = ctx.specs(specs)
     res = C.run_impl('portfolio', specs)
     parts = C.run_impl('assets', specs)
@@ -191,3 +196,11 @@ def run(ctx):
                 ctx.cov['correspondence']['disagreements'] += 1
                 ctx.broken('correspondence-broken' if NAMES.index(nm) < 6 else 'validator-rejected',
                            {'spec': sp, 'theorem_or_correspondence': nm})
+    vals = C.run_coq_exprs('C07s', 'Num LP Cert Mapping Dcf Grid Assets Periodic Portfolio Corr Build', sm_exprs, chunk=5)
+    for sp, v in zip(sm_owners, vals):
+        ctx.cov['correspondence']['cases'] += 1
+        ctx.cov['correspondence']['components_compared'] += 2
+        for nm, ok in zip(util.SPLIT_MAP_NAMES, v):
+            if not ok:
+                ctx.cov['correspondence']['disagreements'] += 1
+                ctx.broken('correspondence-broken', {'spec': sp, 'theorem_or_correspondence': 'Portfolio.setup_split_optim_problem vs Split.split_map: ' + nm})
